@@ -199,6 +199,16 @@ func init() {
 		return storage.VerifFlush(sess.RelationService)
 	}
 	ops["close"] = func(op *proto.Op, res *proto.Res) error { return sess.Close() }
+	// open-nosync: select database S the way csvimport -disable-wal-fsync
+	// opens it: no fsync after a log append
+	ops["open-nosync"] = func(op *proto.Op, res *proto.Res) error {
+		rs, err := storage.OpenRelation(op.S, false)
+		if err != nil {
+			return err
+		}
+		sess.CurDB, sess.RelationService = op.S, rs
+		return nil
+	}
 	ops["dump"] = opDump
 	ops["walk"] = opWalk
 	ops["hdr"] = func(op *proto.Op, res *proto.Res) error {
